@@ -70,3 +70,46 @@ func zzH_C08_init_recomputes_id(t *zzT) {
 	t.Assert(bytes.Equal(h.ID, crypto.Hash(h.Encode())), "after Init the block ID is the hash of the header's encoding")
 	t.Reach("end")
 }
+
+// C03 "a payload of statically valid transactions": Transaction.Validate against the rule set as stated —
+// module and command names consist of ASCII letters and digits only (every byte symbolic, 0..3 bytes, so
+// non-ASCII UTF-8 letters / digits and punctuation are among the inputs), params within the size limit,
+// a 32-byte sender key, at least one signature and every signature 64 bytes long.
+// (seed C03-7 replaced the ^[a-zA-Z0-9]*$ match by unicode.IsLetter / IsDigit.)
+//
+//zz:opt loop=200
+func zzH_C03_transaction_static_rules(t *zzT) {
+	mod := t.Bytes("module", t.Range("module.len", 0, 3))
+	cmd := t.Bytes("command", t.Range("command.len", 0, 2))
+	// concrete corner cases as well (non-ASCII letters and digits, punctuation): evaluated by the real code
+	// on concrete strings whatever the engine's model of symbolic strings supports
+	corners := []string{"", "tok\u00e9n", "\u0442\u043e\u043a\u0435\u043d", "transfer\u0663", "to-ken", "a_b", "Token9", "\xff"}
+	if k := t.Choice("module.corner", len(corners)+1); k > 0 {
+		mod = []byte(corners[k-1])
+	}
+	if k := t.Choice("command.corner", len(corners)+1); k > 0 {
+		cmd = []byte(corners[k-1])
+	}
+	keyLen := t.Range("sender.len", 31, 33)
+	nsig := t.Range("signatures", 0, 2)
+	sigs := make([]codec.Hex, nsig)
+	sigOK := nsig > 0
+	for i := range sigs {
+		l := t.Range(t.Name("sig.len", i), 63, 65)
+		sigs[i] = bytes.Repeat([]byte{7}, l)
+		sigOK = sigOK && l == 64
+	}
+	tx := &Transaction{Module: string(mod), Command: string(cmd), Nonce: 1, Fee: 1, SenderPublicKey: bytes.Repeat([]byte{1}, keyLen), Params: []byte{1}, Signatures: sigs}
+	alnum := func(b []byte) bool {
+		ok := true
+		for _, c := range b {
+			ok = t.And(ok, t.Or(t.Or(t.And(c >= '0', c <= '9'), t.And(c >= 'a', c <= 'z')), t.And(c >= 'A', c <= 'Z')))
+		}
+		return ok
+	}
+	want := alnum(mod) && alnum(cmd) && keyLen == 32 && sigOK
+	got := tx.Validate() == nil
+	t.ObserveBool("got", got)
+	t.Assert(got == want, "Transaction.Validate accepts exactly: ASCII-alphanumeric module and command, 32-byte sender key, >= 1 signature, all signatures 64 bytes")
+	t.Reach("end")
+}
